@@ -530,8 +530,66 @@ fn explore_shape(shape: &Shape, acc: &mut Acc) -> TreeStats {
     }
 }
 
+/// `x in y` is written item first: its operands are evaluated in the order they are written, like
+/// those of every other strict operator.  Texts with `in` (the tree legs only know the swapped
+/// `contains` node), every history of probe answers; oracle for the order: probes are invoked in
+/// ascending number (= text order) until one fails.
+fn in_operator_leg(acc: &mut Acc) {
+    let texts = ["p(i0) in p(i1)", "p(i0) in [p(i1)]", "p(i0) in [p(i1), p(i2)]", "[p(i0)] in p(i1)", "(p(i0) in p(i1)) and p(i2)", "p(i0) contains p(i1)", "[p(i0), p(i1) in p(i2)]"];
+    for text in texts {
+        let parsed = match super::common::parse_expr(text) {
+            Ok(Ok(e)) => e,
+            other => {
+                acc.machinery(format!("in-operator text {text:?} does not parse: {other:?}"));
+                continue;
+            }
+        };
+        let tree = RE::from_expr(&parsed);
+        let world = Arc::new(Mutex::new(World::default()));
+        let rs = match make_ruleset(&tree, &world) {
+            Ok(r) => r,
+            Err(m) => {
+                acc.machinery(m);
+                continue;
+            }
+        };
+        let res = explore(&[], None, 100_000, |ch, _| {
+            let (_obs, log, answers) = run_once(&rs, &world, Some(ch.clone()), false);
+            acc.count("executions", 1);
+            acc.count("in_operator_histories", 1);
+            let got: Vec<i128> = log.iter().filter_map(|(_, a)| if let RV::Int(i) = a { Some(*i) } else { None }).collect();
+            // text order, cut after the first failing answer; `and` stops after a left operand that is not `true`
+            let mut want: Vec<i128> = Vec::new();
+            for (i, a) in answers.iter().enumerate() {
+                want.push(i as i128);
+                if *a == 5 {
+                    break;
+                }
+            }
+            let in_order = got.windows(2).all(|w| w[0] < w[1]);
+            if !in_order || (got != want && got.len() == want.len()) {
+                acc.violation(Violation {
+                    sig: format!("in-operator-text-order/{}", text.replace(' ', "")),
+                    what: format!("`{text}` with answers {answers:?}: probes invoked in the order {got:?}; as written (left to right) it is {want:?}"),
+                    case: json!({"kind": "in-operator", "text": text, "answers": answers}),
+                    size: answers.len() * 10 + answers.iter().sum::<u32>() as usize,
+                });
+            }
+            acc.outcome(format!("in-operator:{}", if in_order { "text-order" } else { "other-order" }));
+        });
+        if let Err((_, m)) = res {
+            acc.machinery(format!("in-operator leg {text}: {m}"));
+        }
+    }
+}
+
 pub fn run(tier: Tier) -> i32 {
     let mut rep = Report::new("C05", tier);
+    {
+        let mut acc = Acc::new();
+        in_operator_leg(&mut acc);
+        rep.absorb(acc);
+    }
     let shapes = shapes(tier);
     rep.bound("shapes", shapes.len());
     rep.bound("answers_per_probe", N_ANSWERS);
@@ -560,6 +618,21 @@ pub fn run(tier: Tier) -> i32 {
 }
 
 pub fn replay(case: &serde_json::Value) -> i32 {
+    if case.get("kind").and_then(|k| k.as_str()) == Some("in-operator") {
+        let mut acc = Acc::new();
+        in_operator_leg(&mut acc);
+        let text = case.get("text").and_then(|t| t.as_str()).unwrap_or("");
+        let mine: Vec<&Violation> = acc.violations.values().filter(|v| v.sig.ends_with(&text.replace(' ', ""))).collect();
+        return if mine.is_empty() {
+            println!("`{text}`: operands evaluated in the order written: holds");
+            0
+        } else {
+            for v in mine {
+                println!("verdict: VIOLATED — {}", v.what);
+            }
+            1
+        };
+    }
     let label = case.get("shape").and_then(|s| s.as_str()).unwrap_or("");
     let answers: Vec<u32> = case
         .get("answers")
